@@ -744,6 +744,9 @@ def check_decoders(c_app):
     return out
 
 
+RATES = [0.1, 0, 0.5, 0.25, 0.0, 0.01]
+
+
 def check_decode_and_errors(ctx, c_app, deep):
     """/decode and /new-errors vs the library decoder / noise model"""
     import panqec.gui._gui as G
@@ -764,13 +767,16 @@ def check_decode_and_errors(ctx, c_app, deep):
         for em_name in (['Depolarizing', 'Pure Z', 'Pure X'] if deep else ['Depolarizing', 'Pure Z']):
             for dn, ndn in pairs:
                 n += 1
+                # the whole range of the menu's Probability slider, its two ends included (0: the noise model
+                # returns the identity with certainty; 0.5)
+                p = RATES[(n - 1) % len(RATES)]
                 try:
                     code = K.build(klass.__name__, size, None if dn == 'None' else (dn, {}))
                     rx, ry, rz = G.noise_directions[em_name]
                     em = PauliErrorModel(rx, ry, rz, None if ndn == 'None' else ndn)
-                    e = em.generate(code, 0.1, rng=rng)
+                    e = em.generate(code, max(p, 0.05), rng=rng)
                     syn = code.measure_syndrome(e)
-                    pl = payload(name, size, dn, False, syndrome=[int(x) for x in syn], p=0.1,
+                    pl = payload(name, size, dn, False, syndrome=[int(x) for x in syn], p=p,
                                  noise_deformation_name=ndn, max_bp_iter=10, alpha=0.4, beta=0,
                                  decoder=dec, error_model=em_name)
                     kwargs = {}
@@ -781,13 +787,11 @@ def check_decode_and_errors(ctx, c_app, deep):
                     with mock.patch('numpy.random.default_rng', side_effect=lambda *a, **k: np.random.Generator(np.random.PCG64(7))):
                         got, status = post(c_app, '/decode', pl)
                         try:
-                            want = G.decoders[dec](code, em, 0.1, **kwargs).decode(np.array(syn))
+                            want = G.decoders[dec](code, em, p, **kwargs).decode(np.array(syn))
                         except Exception:  # the library itself rejects this combination
                             want = None
                     if want is None:
                         msg = None if got is None else '/decode answered although the library decoder raises'
-                        if msg is None:
-                            continue
                     elif got is None:
                         msg = f'/decode returned HTTP {status}'
                     elif got['x'] != [int(x) for x in want[:code.n]] or got['z'] != [int(x) for x in want[code.n:]]:
@@ -797,7 +801,7 @@ def check_decode_and_errors(ctx, c_app, deep):
                     if msg is None:
                         with mock.patch('numpy.random.default_rng', side_effect=lambda *a, **k: np.random.Generator(np.random.PCG64(11))):
                             got, status = post(c_app, '/new-errors', {k: pl[k] for k in pl if k not in ('syndrome', 'decoder')})
-                            want = em.generate(code, 0.1)
+                            want = em.generate(code, p)
                         if got is None:
                             msg = f'/new-errors returned HTTP {status}'
                         elif got != [int(x) for x in want]:
@@ -806,7 +810,7 @@ def check_decode_and_errors(ctx, c_app, deep):
                     msg = f'raised {type(ex).__name__}: {ex}'
                 if msg:
                     fails.append({'input': {'kind': 'decode', 'code_name': name, 'size': list(size), 'decoder': dec,
-                                            'error_model': em_name, 'deformation': dn, 'noise_deformation': ndn},
+                                            'error_model': em_name, 'deformation': dn, 'noise_deformation': ndn, 'p': p},
                                   'observed': msg, 'match': {'kind': 'decode', 'code_name': name, 'decoder': dec}})
     return fails, n
 
